@@ -21,10 +21,17 @@ import (
 type CaseC13Scte struct {
 	C        CaseC09 `json:"signal"`
 	Stuffing int     `json:"stuffing"`
+	// Sap: the two bits behind private_indicator of a decoded input (reserved '11' in older editions of SCTE 35, sap_type in
+	// newer ones: every value is legal), with the input's CRC_32 computed over them. Stored as value+1; 0 = leave as encoded.
+	Sap int `json:"sap_type_plus_1,omitempty"`
 }
 
 func genC13Scte(t *rapid.T) CaseC13Scte {
-	return CaseC13Scte{C: genC09(t), Stuffing: rapid.SampledFrom([]int{0, 0, 1, 2, 3, 7}).Draw(t, "stuffing")}
+	c := CaseC13Scte{C: genC09(t), Stuffing: rapid.SampledFrom([]int{0, 0, 1, 2, 3, 7}).Draw(t, "stuffing")}
+	if rapid.Bool().Draw(t, "sap-type") {
+		c.Sap = 1 + rapid.IntRange(0, 3).Draw(t, "sap-type-value")
+	}
+	return c
 }
 
 func checkC13Scte(c CaseC13Scte, x *hx.Ctx) *hx.Failure {
@@ -35,6 +42,12 @@ func checkC13Scte(c CaseC13Scte, x *hx.Ctx) *hx.Failure {
 		st.sig = buildSpliceAPI(&st.m, c.C.Noise)
 	default:
 		in := append([]byte{0}, c.C.Splice.Encode()...)
+		if c.Sap > 0 && len(in) >= 8 {
+			in[2] = in[2]&^0x30 | byte(c.Sap-1)<<4
+			crc := ref.CRC32MPEG2(in[1 : len(in)-4])
+			in[len(in)-4], in[len(in)-3], in[len(in)-2], in[len(in)-1] = byte(crc>>24), byte(crc>>16), byte(crc>>8), byte(crc)
+			x.Label("input-sap-type-bits")
+		}
 		if c.C.BadCRC > 0 {
 			// the input's own CRC_32 is stale: whatever the decoder accepts and the encoder emits must carry a correct one
 			in[len(in)-1-(c.C.BadCRC-1)/8] ^= 1 << uint((c.C.BadCRC-1)%8)
@@ -42,8 +55,8 @@ func checkC13Scte(c CaseC13Scte, x *hx.Ctx) *hx.Failure {
 		}
 		s, err := scte35.NewSCTE35(in)
 		if err != nil {
-			if c.C.BadCRC > 0 {
-				return nil // a decoder may verify CRC_32; only what it accepts must be re-emitted correctly
+			if c.C.BadCRC > 0 || c.Sap > 0 {
+				return nil // a decoder may verify CRC_32 (or insist on the reserved bits of its edition); only what it accepts must be re-emitted correctly
 			}
 			return hx.Failf("decode-error", "NewSCTE35 failed on a well-formed section: %v", err)
 		}
